@@ -422,6 +422,112 @@ def option_cases():
     return C
 
 
+def keyword_cases():
+    """Keyword options that a rule may not know: each call must either raise or give the derivative of what NumPy computes WITH the option
+    (expected value: numerical derivative of the plain NumPy call)."""
+    L = lib()
+    ag, np = L["ag"], L["np"]
+    a3 = onp.array([0.4, 1.2, -0.7, 2.3])
+    a23 = onp.arange(6.0).reshape(2, 3) * 0.7 - 1.1
+    m3 = onp.array([True, False, True, True])
+    m23 = onp.array([[True, False, True], [False, True, True]])
+    C = []
+
+    def add(name, src, x, extra=None):
+        ns_a = dict(np=np, onp=onp, m3=m3, m23=m23, **(extra or {}))
+        ns_n = dict(np=onp, onp=onp, m3=m3, m23=m23, **(extra or {}))
+        f_a = eval("lambda x: " + src, ns_a)
+        f_n = eval("lambda x: " + src, ns_n)
+        C.append((name, src, f_a, f_n, x))
+    for red in ("sum", "mean", "prod", "max", "min", "var", "std"):
+        add("%s where=" % red, "np.%s(x, where=m3%s)" % (red, ", initial=0.0" if red in ("max", "min") else ""), a3)
+        add("%s where= axis" % red, "np.%s(x, axis=0, where=m23%s)" % (red, ", initial=0.0" if red in ("max", "min") else ""), a23)
+    add("sum initial=", "np.sum(x, initial=2.5)", a3)
+    add("prod initial=", "np.prod(x, initial=2.5)", a3)
+    add("max initial=", "np.max(x, initial=1.0)", a3)
+    add("method sum where=", "x.sum(where=m3)", a3)
+    add("method mean where=", "x.mean(where=m3)", a3)
+    for spell in ("np.clip(x, max=1.0)", "np.clip(x, min=0.0)", "np.clip(x, min=0.0, max=1.0)", "x.clip(max=1.0)", "x.clip(min=0.0, max=1.0)", "np.clip(x, None, 1.0)",
+                  "np.clip(x, 0.0, None)", "np.clip(x, a_min=0.0, a_max=1.0)", "np.clip(x, a_max=1.0, a_min=None)", "x.clip(0.0)"):
+        add("clip spelling", spell, a3)
+    add("mean dtype=", "np.mean(x, dtype='float32') * 1.0", a3)
+    add("cumsum dtype=", "np.cumsum(x, dtype='float64')", a3)
+    add("std ddof=2", "np.std(x, ddof=2)", a3)
+    add("var ddof=1 keepdims", "np.var(x, ddof=1, keepdims=True)", a23)
+    add("repeat with array repeats", "np.repeat(x, onp.array([1, 2, 0, 1]))", a3)
+    add("tile with 0-d reps", "np.tile(x, onp.array(2))", a3)
+    add("concatenate of one array with axis=None", "np.concatenate([x], axis=None)", a23)
+    add("concatenate of two arrays with axis=None", "np.concatenate([x, x * 2.0], axis=None)", a23)
+    add("ravel order=F", "np.ravel(x, order='F')", a23)
+    add("reshape order=F", "np.reshape(x, (3, 2), order='F')", a23)
+    add("flatten order=F", "x.flatten(order='F')", a23)
+    add("sort descending via kind", "np.sort(x, kind='stable')", a3)
+    add("diff with prepend", "np.diff(x, prepend=0.0)", a3)
+    add("trace with offset and dtype", "np.trace(x, offset=1, dtype='float64')", a23)
+    add("squeeze with axis tuple", "np.squeeze(x[None, :, None], axis=(0, 2))", a3)
+    add("expand_dims with a tuple", "np.expand_dims(x, (0, 2))", a3)
+    add("moveaxis with lists", "np.moveaxis(x[None], [0, 1], [1, 0])", a23)
+    add("roll with tuple shifts", "np.roll(x, (1, 2), axis=(0, 1))", a23)
+    add("flip with a tuple", "np.flip(x, (0, 1))", a23)
+    add("rot90 k=3 axes", "np.rot90(x, 3, (1, 0))", a23)
+    add("pad with per-axis widths", "np.pad(x, ((1, 0), (0, 2)))", a23)
+    add("split with unsorted indices", "np.concatenate(np.split(x, [3, 1]))", a3)
+    add("array_split uneven", "np.concatenate(np.array_split(x, 3))", a3)
+    add("einsum optimize=", "np.einsum('ij,kj->ik', x, x, optimize=True)", a23)
+    add("tensordot axes=0", "np.tensordot(x, x, 0)", a3)
+    add("take with negative and repeated indices", "np.take(x, [0, -1, 0])", a3)
+    return C
+
+
+def _keyword_results(C):
+    """[(name, src, mode, verdict, detail)] ; verdict in {raised, correct, undecided, WRONG}."""
+    from ..oracles import numjac, Untrusted
+    L = lib()
+    ag = L["ag"]
+    out = []
+    with warnings.catch_warnings():
+        warnings.simplefilter("ignore")
+        for name, src, f_a, f_n, x in C:
+            try:
+                with onp.errstate(all="ignore"):
+                    y0 = onp.asarray(f_n(x), dtype=float)
+                    Jn, _ = numjac(lambda xx: onp.asarray(f_n(xx), dtype=float), x)
+            except Untrusted:
+                out.append((name, src, "-", "undecided", "numerical Jacobian not trusted"))
+                continue
+            except Exception as e:
+                out.append((name, src, "-", "undecided", "NumPy rejects: %s" % type(e).__name__))
+                continue
+            m, n = y0.size, x.size
+            for mode in ("rev", "fwd"):
+                try:
+                    if mode == "rev":
+                        vjp, val = ag.make_vjp(f_a)(x)
+                        val = onp.asarray(val, dtype=float)
+                        J = onp.zeros((m, n))
+                        for k in range(m):
+                            b = onp.zeros(val.shape)
+                            b.reshape(-1)[k] = 1.0
+                            J[k] = onp.asarray(vjp(b if val.shape else 1.0), dtype=float).reshape(-1)
+                    else:
+                        jvp = ag.make_jvp(f_a)(x)
+                        J = onp.zeros((m, n))
+                        for j in range(n):
+                            t = onp.zeros(x.shape)
+                            t.reshape(-1)[j] = 1.0
+                            val, tv = jvp(t)
+                            J[:, j] = onp.asarray(tv, dtype=float).reshape(-1)
+                    if onp.asarray(val, dtype=float).shape != y0.shape or not onp.allclose(onp.asarray(val, dtype=float), y0, rtol=1e-6, atol=1e-9, equal_nan=True):
+                        out.append((name, src, mode, "WRONG", "primal differs from NumPy"))
+                    elif J.shape == Jn.shape and onp.allclose(J, Jn, rtol=1e-6, atol=1e-7):
+                        out.append((name, src, mode, "correct", None))
+                    else:
+                        out.append((name, src, mode, "WRONG", "autograd %s vs numerical %s" % (onp.round(J, 5).tolist(), onp.round(Jn, 5).tolist())))
+                except Exception as e:
+                    out.append((name, src, mode, "raised", type(e).__name__))
+    return out
+
+
 def run(ctx):
     import autograd.extend  # noqa
     rep = Report("exploration")
@@ -458,6 +564,16 @@ def run(ctx):
                                                 dict(case=name), repr(r)[:200], "an exception at the point of use", "# " + name))
             except Exception:
                 pass
+    kw = _keyword_results(keyword_cases())
+    kwtot = {}
+    for name, src, mode, verdict, detail in kw:
+        kwtot[verdict] = kwtot.get(verdict, 0) + 1
+        if verdict == "WRONG":
+            rep.violations.append(violation(PROP, "keywords", src.split("(")[0].replace("np.", ""), mode, "silently-wrong-with-option", dict(case=name, call=src),
+                                            dict(keyword_case=src, mode=mode), dict(call=src), detail[:300], "an exception, or the derivative of NumPy's result with this option",
+                                            "import autograd, autograd.numpy as np, numpy as onp  # f = lambda x: %s" % src))
+    nopt += len(kw)
+    rep.cov["keyword_cases"] = kwtot
     if len(rep.cov["samples"]) < 10:
         rep.cov["samples"].append(dict(option_case="matrix norm ord=1 must raise", outcome="raised"))
     rep.add(evaluations=tot["calls"] + nopt, states=tot["accepted"], transitions=tot["calls"], traces_validated_against_impl=tot["varying"],
@@ -485,6 +601,11 @@ def replay(ctx, v):
         return None
     lib()
     import autograd.extend  # noqa
+    if "keyword_case" in c:
+        for name, src, mode, verdict, detail in _keyword_results([k for k in keyword_cases() if k[1] == c["keyword_case"]]):
+            if mode == c["mode"] and verdict == "WRONG":
+                return v
+        return None
     for name, mode, thunk in option_cases():
         if name == c["case"] and mode == c["mode"]:
             with warnings.catch_warnings():
